@@ -1,15 +1,15 @@
 import BfeVerif.C09.Proofs
 /-!
   C09 — balancer reload keeps surviving state and releases removed targets once.
-  Property theorems only.  FULL property (what `ReleaseOk` + the driver's oracle demand after every reload of any
-  history): reachable objects are unreleased, every object that left the table was released exactly once, the table shows
-  exactly the configured backends, survivors keep avail/failNum/connNum.  The unchanged code violates it in two ways
-  (witness theorems below, both replayed on the real code, see corpus/C09/known.ops):
-    * a sub-cluster (or cluster) that the gslb conf names but the cluster table lacks keeps its old backends;
-    * `BalanceGslb.Reload` returns its "total weight = 0" error AFTER releasing vanished sub-clusters, keeping them listed.
-  Proved here: the merge `BalanceRR.Update` at full strength for arbitrary lists (duplicates included), the
-  sub-cluster merge `BalanceGslb.Reload` on its non-error path, and the two witnesses.  The table-level composition
-  over whole reload histories is `_partial` (exercised by the correspondence run, not proved).
+  Property theorems only.
+
+  Release discipline (proved at full strength, for EVERY history of Init + BalTableReload calls with arbitrary
+  configurations, after fix C09-reload-check-first): every object ever created (table ++ grave) has been released at most
+  once, objects reachable from the table are unreleased, objects that left the table were released exactly once — hence
+  no close-of-closed-channel panic and no released backend can be selected.
+  Merge (`BalanceRR.Update`, `BalanceGslb.Reload`): survivors keep their state, proved for arbitrary lists.
+  "The table shows the configuration" is violated by the unchanged code when the cluster table lacks a (sub-)cluster the
+  gslb conf names (known findings, witness theorem below); the provable part is `C09_table_shows_conf_partial`.
 -/
 namespace BfeVerif.C09
 
@@ -17,18 +17,8 @@ namespace BfeVerif.C09
     the new list contains only unreleased objects and every released object has count exactly 1. -/
 theorem C09_update_release_once (old : List Backend) (conf : List BConf)
     (h0 : ∀ o ∈ old, o.released = 0) :
-    (∀ b ∈ (rrUpdate old conf).1, b.released = 0) ∧ (∀ b ∈ (rrUpdate old conf).2, b.released = 1) := by
-  obtain ⟨h1, h2, _, _⟩ := updLoop_spec old (confMap conf)
-  unfold rrUpdate
-  simp only []
-  refine ⟨fun b hb => ?_, fun b hb => ?_⟩
-  · rcases List.mem_append.mp hb with hb | hb
-    · obtain ⟨o, ho, w, rfl⟩ := h1 b hb
-      exact h0 o ho
-    · obtain ⟨c, _, rfl⟩ := List.mem_map.mp hb
-      rfl
-  · obtain ⟨o, ho, rfl⟩ := h2 b hb
-    simp [rel, h0 o ho]
+    (∀ b ∈ (rrUpdate old conf).1, b.released = 0) ∧ (∀ b ∈ (rrUpdate old conf).2, b.released = 1) :=
+  rrUpdate_release old conf h0
 
 /-- Nothing is lost and nothing is duplicated by identity: every old backend is either kept — the SAME object, only
     its weight rewritten, so avail / failNum / connNum / name survive — or it is in the released list. -/
@@ -58,11 +48,10 @@ theorem C09_gslb_reload_ok (c : Cluster) (gc : List (String × Int)) (hok : (gsl
     (∀ s ∈ (gslbReload c gc).1.subs, (∃ o ∈ c.subs, s.backs = o.backs ∧ s.name = o.name) ∨ s.backs = []) ∧
     (∀ b ∈ (gslbReload c gc).2.1, ∃ o ∈ c.subs, gc.lookup o.name = none ∧ ∃ x ∈ o.backs, b = rel x) := by
   unfold gslbReload at hok ⊢
-  simp only [] at hok ⊢
   split at hok
   · simp at hok
   · rename_i hne
-    simp only [hne]
+    simp only [hne, if_false]
     refine ⟨fun s hs => ?_, fun b hb => ?_⟩
     · rcases List.mem_append.mp (List.mem_mergeSort.mp hs) with hs | hs
       · obtain ⟨o, ho, hso⟩ := List.mem_filterMap.mp hs
@@ -79,7 +68,66 @@ theorem C09_gslb_reload_ok (c : Cluster) (gc : List (String × Int)) (hok : (gsl
       obtain ⟨x, hx, rfl⟩ := List.mem_map.mp hbs
       exact ⟨x, hx, rfl⟩
 
-/-! ### witnesses: the unchanged code violates the full property -/
+/-- Fix C09-reload-check-first: a rejected gslb conf (no positive weight) changes and releases NOTHING. -/
+theorem C09_reload_err_no_change (c : Cluster) (gc : List (String × Int)) (herr : (gslbReload c gc).2.2 = true) :
+    (gslbReload c gc).1 = c ∧ (gslbReload c gc).2.1 = [] := by
+  unfold gslbReload at herr ⊢
+  split
+  · exact ⟨rfl, rfl⟩
+  · rename_i hne; simp [hne] at herr
+
+/-! ### the whole table, over arbitrary reload histories -/
+
+/-- One BalTableReload with ANY configuration (clusters / sub-clusters / backends added, removed, duplicated, missing
+    from the cluster table, zero weights, error returns) preserves the release discipline. -/
+theorem C09_release_ok_reload (st : St) (g : GslbConf) (bc : TableConf) (h : ReleaseOk st) :
+    ReleaseOk (balTableReload st g bc).st := reload_ok st g bc h
+
+/-- …hence after BalTable.Init and ANY sequence of reloads: reachable objects are unreleased and every object that
+    left the table has been released exactly once (induction over the history). -/
+theorem C09_release_ok_history (g0 : GslbConf) (bc0 : TableConf) (hist : List (GslbConf × TableConf)) :
+    ReleaseOk (runHist g0 bc0 hist) := by
+  unfold runHist
+  have gen : ∀ (hist : List (GslbConf × TableConf)) (st : St), ReleaseOk st →
+      ReleaseOk (hist.foldl (fun st p => (balTableReload st p.1 p.2).st) st) := by
+    intro hist
+    induction hist with
+    | nil => intro st h; exact h
+    | cons p r ih => intro st h; exact ih _ (reload_ok st p.1 p.2 h)
+  exact gen hist _ (init_ok g0 bc0)
+
+/-- No object is ever released twice: the close-of-closed-channel panic is unreachable. -/
+theorem C09_release_le_one (g0 : GslbConf) (bc0 : TableConf) (hist : List (GslbConf × TableConf)) :
+    (∀ b ∈ tableObjs (runHist g0 bc0 hist) ++ (runHist g0 bc0 hist).grave, b.released ≤ 1) ∧
+    panicked (runHist g0 bc0 hist) = false := by
+  obtain ⟨ht, hg⟩ := C09_release_ok_history g0 bc0 hist
+  have hle : ∀ b ∈ tableObjs (runHist g0 bc0 hist) ++ (runHist g0 bc0 hist).grave, b.released ≤ 1 := by
+    intro b hb
+    rcases List.mem_append.mp hb with hb | hb
+    · rw [ht b hb]; omega
+    · rw [hg b hb]; omega
+  refine ⟨hle, ?_⟩
+  unfold panicked
+  rw [Bool.eq_false_iff]
+  intro hany
+  obtain ⟨b, hb, h2⟩ := List.any_eq_true.mp hany
+  have := hle b hb
+  simp at h2
+  omega
+
+/-- Released objects are never selected again: selection (any algorithm) picks among the objects reachable from the
+    table, and no object of the grave is reachable; conversely whatever is reachable is unreleased. -/
+theorem C09_never_selected (g0 : GslbConf) (bc0 : TableConf) (hist : List (GslbConf × TableConf)) :
+    (∀ b ∈ (runHist g0 bc0 hist).grave, b ∉ tableObjs (runHist g0 bc0 hist)) ∧
+    (∀ b ∈ tableObjs (runHist g0 bc0 hist), b.released = 0) := by
+  obtain ⟨ht, hg⟩ := C09_release_ok_history g0 bc0 hist
+  refine ⟨fun b hb hbt => ?_, ht⟩
+  have h0 := ht b hbt
+  have h1 := hg b hb
+  omega
+
+/-! ### witnesses: how the unchanged code violates the full property
+  (`gslbReloadOld` = `BalanceGslb.Reload` before fix C09-reload-check-first) -/
 
 /-- WITNESS (class `subcluster-missing-in-table-keeps-backends`): a sub-cluster that the cluster table does not
     mention is skipped by `BackendReload`, so whatever backends it had stay in the table, unreleased and selectable,
@@ -91,24 +139,24 @@ theorem C09_witness_missing_sub_keeps_backends (c : Cluster) (cb : List (String 
   refine List.mem_map.mpr ⟨s, hs, ?_⟩
   simp [hmiss]
 
-/-- WITNESS (class `reload-err-released-reachable`): on the error return of `Reload` a sub-cluster that vanished
+/-- WITNESS (class `reload-err-released-reachable`, FIXED): before the fix, on the error return of `Reload` a sub-cluster that vanished
     from the conf has been released but is still listed. -/
 theorem C09_witness_reload_err_keeps_released (b : Backend) (hb : b.released = 0) :
     let c : Cluster := { name := "c", subs := [{ name := "s", weight := 1, backs := [b] }] }
-    let r := gslbReload c []
+    let r := gslbReloadOld c []
     r.2.2 = true ∧ r.1.subs = [{ name := "s", weight := 1, backs := [rel b] }] ∧ (rel b).released = 1 := by
   refine ⟨?_, ?_, by simp [rel, hb]⟩
-  · simp [gslbReload, totalWeight, List.lookup]
-  · simp [gslbReload, totalWeight, List.lookup, errSub, relSub]
+  · simp [gslbReloadOld, totalWeight, List.lookup]
+  · simp [gslbReloadOld, totalWeight, List.lookup, errSub, relSub]
 
 /-- …and a second reload of the same kind releases it again: count 2 = close of a closed channel
-    (class `reload-err-double-release`; on the real code: panic while `BalTable.lock` is held). -/
+    (class `reload-err-double-release`, FIXED; on the unfixed code: panic while `BalTable.lock` is held). -/
 theorem C09_witness_double_release (b : Backend) (hb : b.released = 0) :
     let c : Cluster := { name := "c", subs := [{ name := "s", weight := 1, backs := [b] }] }
-    let c1 := (gslbReload c []).1
-    (gslbReload c1 []).1.subs = [{ name := "s", weight := 1, backs := [rel (rel b)] }] ∧ (rel (rel b)).released = 2 := by
+    let c1 := (gslbReloadOld c []).1
+    (gslbReloadOld c1 []).1.subs = [{ name := "s", weight := 1, backs := [rel (rel b)] }] ∧ (rel (rel b)).released = 2 := by
   refine ⟨?_, by simp [rel, hb]⟩
-  simp [gslbReload, totalWeight, List.lookup, errSub, relSub]
+  simp [gslbReloadOld, totalWeight, List.lookup, errSub, relSub]
 
 /-! ### non-vacuity -/
 example : (∀ o ∈ [mkNew ⟨"n", "a", 80, 1⟩], o.released = 0) := by simp [mkNew]
